@@ -20,7 +20,7 @@ func init() {
 		Explain: "Decides on every path: the producer dispatcher applies interceptors only on a message's first pass (guard msg.retries == 0, which also excludes the internal markers) (C18.once-producer); in the consumer feeder every send of a message on Messages() is preceded by exactly one application of the interceptors to that element — in particular the slow-reader loop, which restarts at the element the outer loop already intercepted, must not intercept it again (C18.once-consumer); " +
 			"OnSend/OnConsume are invoked only inside the recover wrapper, whose deferred closure calls recover() (C18.contained); interceptor slices are walked in index order (C18.order). " +
 			"NOT covered: what an interceptor does to the message; panics outside the interceptor call itself.",
-		Rules: []func(*Ctx){c18Producer, c18Consumer, c18Contained, c01Retry, c18ResetOnHandBack, c01ErrLost, c18RetryCountKept, c05ClearResetsAll, c18HandlerCannotPanic, c02RetryLevelWidth},
+		Rules: []func(*Ctx){c18Producer, c18Consumer, c18Contained, c01Retry, c18ResetOnHandBack, c01ErrLost, c18RetryCountKept, c05ClearResetsAll, c18HandlerCannotPanic, c02RetryLevelWidth, c18ConfigSliceNotWritten},
 	})
 }
 
